@@ -4,6 +4,7 @@ package parser
 
 import (
 	"regexp"
+	"strings"
 
 	"github.com/lmorg/murex/utils/ansi/codes"
 )
@@ -123,6 +124,16 @@ func Parse(block []rune, pos int) (pt ParsedTokens, syntaxHighlighted string) {
 		lastEscaped = i
 		*pt.pop += string(block[i])
 		ansiReset(block[i])
+	}
+
+	// endFuncName: a flow token (or a closing curly brace) written directly
+	// after a command name ends that name, exactly like a space does
+	endFuncName := func(trim string) {
+		if !readFunc {
+			return
+		}
+		readFunc = false
+		pt.Unsafe = isCmdUnsafe(strings.TrimSuffix(pt.FuncName, trim)) || pt.Unsafe
 	}
 
 	next := func(r rune) bool {
@@ -361,6 +372,7 @@ func Parse(block []rune, pos int) (pt ParsedTokens, syntaxHighlighted string) {
 				if pos != 0 && pt.Loc >= pos {
 					return
 				}
+				endFuncName(string(block[i-1]))
 				pt.Loc = i
 				pt.LastFlowToken = i - 1
 				pt.ExpectFunc = true
@@ -422,6 +434,7 @@ func Parse(block []rune, pos int) (pt ParsedTokens, syntaxHighlighted string) {
 				if pos != 0 && pt.Loc >= pos {
 					return
 				}
+				endFuncName("")
 				pt.LastFlowToken = i
 				pt.ExpectFunc = true
 				pt.SquareBracket = false
@@ -466,6 +479,7 @@ func Parse(block []rune, pos int) (pt ParsedTokens, syntaxHighlighted string) {
 				if pos != 0 && pt.Loc >= pos {
 					return
 				}
+				endFuncName("")
 				pt.LastFlowToken = i
 				pt.ExpectFunc = true
 				pt.SquareBracket = false
@@ -493,6 +507,7 @@ func Parse(block []rune, pos int) (pt ParsedTokens, syntaxHighlighted string) {
 				if pos != 0 && pt.Loc >= pos {
 					return
 				}
+				endFuncName("")
 				pt.LastFlowToken = i
 				pt.ExpectFunc = true
 				pt.SquareBracket = false
@@ -516,6 +531,7 @@ func Parse(block []rune, pos int) (pt ParsedTokens, syntaxHighlighted string) {
 				if pos != 0 && pt.Loc >= pos {
 					return
 				}
+				endFuncName("")
 				pt.LastFlowToken = i
 				pt.Unsafe = true
 				pt.ExpectFunc = true
@@ -540,6 +556,7 @@ func Parse(block []rune, pos int) (pt ParsedTokens, syntaxHighlighted string) {
 				if pos != 0 && pt.Loc >= pos {
 					return
 				}
+				endFuncName("")
 				pt.LastFlowToken = i
 				pt.ExpectFunc = true
 				pt.SquareBracket = false
@@ -554,6 +571,7 @@ func Parse(block []rune, pos int) (pt ParsedTokens, syntaxHighlighted string) {
 				if pos != 0 && pt.Loc >= pos {
 					return
 				}
+				endFuncName("")
 				pt.LastFlowToken = i
 				pt.ExpectFunc = true
 				pt.SquareBracket = false
@@ -599,6 +617,7 @@ func Parse(block []rune, pos int) (pt ParsedTokens, syntaxHighlighted string) {
 				*pt.pop += `}`
 				syntaxHighlighted += "}"
 			default:
+				endFuncName("")
 				if pt.NestedBlock >= 1 {
 					i := pt.NestedBlock % len(hlBlock)
 					syntaxHighlighted += hlBlock[i] + "}" + codes.Reset
